@@ -275,12 +275,27 @@ fn top_names(sc: &Scenario) -> Vec<String> {
     infos(&sc.regs).iter().filter(|i| i.parent.is_none() && i.kind != Kind::Tl).map(|i| i.name.clone()).collect()
 }
 
-pub fn check_c20(sc: &Scenario, seed: u64, st: Option<&mut Stats>) -> Vec<Violation> {
+pub fn check_c20(sc: &Scenario, seed: u64, mut st: Option<&mut Stats>) -> Vec<Violation> {
     let mut out = Vec::new();
     let mut rng = Rng::sub(seed, 43);
     let ntop = sc.regs.len();
     let print_after: Vec<usize> = (0..ntop).filter(|_| rng.chance(1, 4)).collect();
-    let b = build(sc, &BuildOpts { capture_debug: true, do_setup: true, print_after: print_after.clone() });
+    // ill-formed registrations in between (rejected by a panic, caught): one id is used up each
+    // time, everything else must be as if they had not been attempted
+    let mut rejects: Vec<(usize, bool)> = Vec::new();
+    if rng.chance(1, 3) {
+        for k in 0..ntop {
+            if rng.chance(1, 4) {
+                rejects.push((k, rng.chance(1, 2)));
+            }
+        }
+    }
+    if let Some(st) = st.as_deref_mut() {
+        if !rejects.is_empty() {
+            Stats::bump(&mut st.faults, "rejected_registration_caught", rejects.len() as u64);
+        }
+    }
+    let b = build(sc, &BuildOpts { capture_debug: true, do_setup: true, print_after: print_after.clone(), rejects });
     let inf = &b.ctx.infos;
     let mut unnamed = 0u64;
     for (ri, r) in &b.early_prints {
